@@ -194,3 +194,44 @@ def while_let_pop_loops(fn):
         if last and pop:
             out.append({"head": head, "body": body, "last_bbs": last, "pop_bbs": pop})
     return out
+
+
+# ---- loops and their iterator-combinator spellings, seen alike ---------------------------------------------------------------------
+EVERY_ITEM_COMBINATORS = ("Iterator::for_each", "Iterator::try_for_each")
+
+
+def iterations(fn, prog):
+    """`for x in it { body }` and `it.for_each(|x| body)` / `it.try_for_each(|x| body)` as one notion.
+
+    Yields dicts {kind: "loop" | "closure", iter_ty, forward, body_fn, body (blocks of body_fn), site (term or il)}.  `forward` says
+    that items are drawn front to back (no Rev adaptor, next() not next_back())."""
+    out = []
+    for il in iterator_loops(fn):
+        ity = il["iter_ty"]
+        out.append({"kind": "loop", "iter_ty": ity, "forward": "Rev<" not in ity and il["callee"]["path"].endswith("Iterator::next"),
+                    "body_fn": fn, "body": set(il["body"]), "il": il, "where": fn.where(il["next_term"])})
+    for bb, t in fn.calls():
+        c = callee_of(t)
+        p = c.get("path") or ""
+        if fn.blocks[bb]["cleanup"] or not p.endswith(EVERY_ITEM_COMBINATORS) or len(t["args"]) < 2:
+            continue
+        e = df.operand_expr(fn, t["args"][1])
+        if not (isinstance(e, tuple) and e and e[0] == "closure" and e[1] in prog.fns):
+            continue
+        cl = prog.fns[e[1]]
+        ity = t["argtys"][0] if t["argtys"] else ""
+        out.append({"kind": "closure", "iter_ty": ity, "forward": "Rev<" not in ity, "body_fn": cl,
+                    "body": {i for i, b in enumerate(cl.blocks) if not b["cleanup"]}, "term": t, "where": fn.where(t), "combinator": p.split("::")[-1]})
+    return out
+
+
+def every_item_reaches(it, call_blocks):
+    """Does every iteration pass through one of call_blocks (blocks of it["body_fn"]) before the next item is drawn / the body returns?"""
+    fn = it["body_fn"]
+    if not call_blocks:
+        return False
+    if it["kind"] == "loop":
+        il = it["il"]
+        return il["head"] not in cfg.reachable(fn, [il["some_edge"][1]], blocked=set(call_blocks))
+    r = cfg.reachable(fn, 0, blocked=set(call_blocks))
+    return not any(b in r for b in cfg.exits(fn))
